@@ -16,7 +16,7 @@ def run(chk):
     exe = build()
     n = vf.NCPU
     per = (GRID + n - 1) // n            # the whole stated grid ...
-    per += chk.pick(400, 2000)            # ... plus random (length, seed, content) cases per shard
+    per += chk.pick(400, 60000)            # ... plus random (length, seed, content) cases per shard
     chk.run('asan', exe, per)
     chk.rule = ('case = (length, seed class, content class) from the stated grid (73 lengths x 4 seeds x 4 contents, enumerated '
                 'completely) plus random cases; each case evaluates all 6 hashes at 8 alignments in 3 placements (exact-size heap '
